@@ -163,6 +163,67 @@ void h_jump_poly(void)
     )
 
 
+TABLE_RULES_J = [
+    Rule(r"static ArrayJumpPoly const jump = \{", "static const ArrayJumpPoly TAB_jump = {", 1, note="table definition -> C aggregate (same initializer text)"),
+]
+TABLE_RULES_S = [
+    Rule(r"static ArrayJumpPoly const jump_subsequence = \{", "static const ArrayJumpPoly TAB_jump_subsequence = {", 1, note="table definition -> C aggregate (same initializer text)"),
+]
+
+
+def tables(ctx):
+    j = ctx.span(PAR, r"static ArrayJumpPoly const jump = \{", r"\}\}\};", TABLE_RULES_J, name="XorwowRngParams::get_jump_poly table")
+    s = ctx.span(PAR, r"static ArrayJumpPoly const jump_subsequence = \{", r"\}\}\};", TABLE_RULES_S, name="XorwowRngParams::get_jump_subsequence_poly table")
+    return j.body + "\n" + s.body + "\n"
+
+
+ROW_COMMON = """
+/* g(T)x as the fold of spec_poly_step (the same step the lock-step ghost of
+ * unit c13_jump_poly uses; XE_jump_poly's contract says xorstate' == this) */
+static XorState5 poly_apply(XorState5 x, JumpPoly const* p)
+{
+    XorState5 acc = {{0, 0, 0, 0, 0}};
+    for (unsigned w = 0; w < 5; ++w)
+        for (unsigned b = 0; b < 32; ++b)
+            spec_poly_step(&acc, &x, p, w, b);
+    return acc;
+}
+static XorState5 onehot(void)
+{
+    unsigned w, b;
+    __CPROVER_assume(w < 5 && b < 32);
+    XorState5 e = {{0, 0, 0, 0, 0}};
+    e.d[w] = 1u << b;
+    return e;
+}
+"""
+
+
+def build_row(kind, i):
+    def build(ctx):
+        src = HDR + tables(ctx) + ROW_COMMON
+        if kind == "P" and i == 0:
+            body = "XorState5 lhs = poly_apply(e, &TAB_jump.d[0]); XorState5 rhs = spec_T(e);"
+        elif kind == "P":
+            body = "XorState5 lhs = poly_apply(e, &TAB_jump.d[%d]); XorState5 rhs = e; for (int r = 0; r < 4; ++r) rhs = poly_apply(rhs, &TAB_jump.d[%d]);" % (i, i - 1)
+        elif kind == "S" and i == 0:
+            body = "XorState5 lhs = poly_apply(e, &TAB_jump_subsequence.d[0]); XorState5 rhs = e; for (int r = 0; r < 32; ++r) rhs = poly_apply(rhs, &TAB_jump.d[31]);"
+        else:
+            body = "XorState5 lhs = poly_apply(e, &TAB_jump_subsequence.d[%d]); XorState5 rhs = e; for (int r = 0; r < 4; ++r) rhs = poly_apply(rhs, &TAB_jump_subsequence.d[%d]);" % (i, i - 1)
+        src += "void h_row(void)\n{\n    XorState5 e = onehot();\n    " + body + "\n"
+        src += '    __CPROVER_assert(ST_EQ(lhs, rhs), "lemma.row_%s%d: table row equals the required power of T on every basis vector");\n    VERIF_CANARY();\n}\n' % (kind, i)
+        return src
+    return build
+
+
+def row_unit(kind, i, tier):
+    t = 900 if (kind == "S" and i == 0) else 300
+    return Unit("c13_row_%s%02d" % (kind, i), build_row(kind, i), "h_row", unwind=34, timeout=t, tier=tier,
+                must_have=[r"lemma.row_%s%d" % (kind, i)], checks=["--no-standard-checks"],
+                assumptions=["symbolic one-hot state (160 basis vectors); extension to all 2^160 states by xor-linearity (lemma c13_additive + paper lemma L-lin)"],
+                note="jump table row lemma")
+
+
 UNITS = [
     Unit("c13_next", build_next, "h_next", enforce="XE_next", timeout=120, must_have=[r"postcondition"],
          checks=["--bounds-check", "--pointer-check", "--conversion-check"],
@@ -177,4 +238,4 @@ UNITS = [
          checks=["--bounds-check", "--pointer-check", "--no-signed-overflow-check"],
          assumptions=["signed-overflow/undefined-shift checks off for this unit: `1 << j` with j==31 is well defined in C++14 and later (the code's language) but not in C"],
          note="jump(poly) == g(T)x; loops are constant-bounded (5x32x5): full unwinding + unwinding assertions is complete, not a bounded stand-in"),
-]
+] + [row_unit("P", i, "quick") for i in range(32)] + [row_unit("S", i, "quick") for i in range(32)]
